@@ -471,27 +471,38 @@ def check_timing_columns(facts, out):
     ctx = Ctx(facts, H.binding_inits(h), h)
     lit = lits[-1]
     fields = {f['n']: f['e'] for f in lit['fields']}
-    point_of = lambda kind: OR(M(kind + '_point_at', ANY(), ANY()), L(kind))
-    def from_point(kind, field, default):
-        # `<kind>.map_or(DEFAULT, |point| point.<field>)` with <kind> = control_points.<kind>_point_at(time)
-        return M('map_or', VIAP(kind), OR(P(default), ANY()), CONTAINS(F(ANY(), field)))
-    class _V:
-        pass
+    KINDS = ('TimingPoint', 'DifficultyPoint', 'EffectPoint', 'SamplePoint')
 
-    def VIAP(kind):
-        from hp import VIA
-        return VIA(M(kind + '_point_at', ANY(), ANY()))
+    def reads(e, depth=0, seen=None):
+        """(control point kind, field) pairs an expression reads, following the locals it is built from"""
+        seen = seen if seen is not None else set()
+        res = set()
+
+        def v(n, anc):
+            if n.get('k') == 'field':
+                bty = (H.peel(n['e']).get('ty') or '').replace('&mut ', '').replace('&', '')
+                for kd in KINDS:
+                    if bty.endswith('::' + kd):
+                        res.add((kd, n['n']))
+            if n.get('k') == 'local' and n.get('name') not in seen and depth < 5:
+                seen.add(n['name'])
+                for i in ctx.inits.get(n['name'], []):
+                    if isinstance(i, dict):
+                        res.update(reads(i, depth + 1, seen))
+        H.walk(e, v)
+        return res
     checks = [
-        ('slider_velocity', from_point('difficulty', 'slider_velocity', 'DEFAULT_SLIDER_VELOCITY'),
-         'the velocity column is not the difficulty point\'s slider velocity'),
-        ('timing_signature', CONTAINS(from_point('timing', 'time_signature', 'DEFAULT_TIME_SIGNATURE')),
-         'the signature column is not the timing point\'s time signature'),
+        ('slider_velocity', 'DifficultyPoint', 'slider_velocity', 'the velocity column is not the difficulty point\'s slider velocity'),
+        ('timing_signature', 'TimingPoint', 'time_signature', 'the signature column is not the timing point\'s time signature'),
     ]
-    for fname, pat, why in checks:
+    for fname, kind, field, why in checks:
         e = fields.get(fname)
-        ok = e is not None and (pat.m(ctx, e))
+        rd = reads(e) if e is not None else set()
+        other = sorted(x for x in rd if x[0] != kind or (fname == 'slider_velocity' and x[1] != field))
+        ok = (kind, field) in rd and not other
         out.add('KT-K13', pth, 'column-source:' + fname, 'src/encode.rs:%s' % (lit.get('ln') or 0), ok,
-                '' if ok else why + ' (a value of another control point kind would be read back into the wrong field)', ordinal=False)
+                '' if ok else why + ' (it reads %s; a value of another control point kind would be read back into the wrong field)'
+                % (other or sorted(rd)), ordinal=False)
     # no field of the per-line properties is patched after construction
     patched = []
     for p2, h2 in facts.hir.items():
